@@ -286,3 +286,35 @@ Fixpoint json_sameb (strict : bool) (a b : json) {struct a} : bool :=
          end) la
   | _, _ => false
   end.
+
+(* Python == between two values json.loads produced (True == 1 == 1.0, NaN != NaN, dict
+   equality ignores order) -- what [response.unique_id == unique_id] computes *)
+Definition num_of_bool (b : bool) : num := NInt (if b then 1 else 0).
+Fixpoint py_eqb (a b : json) {struct a} : bool :=
+  match a, b with
+  | JNull, JNull => true
+  | JBool x, JBool y => Bool.eqb x y
+  | JBool x, JNum n => num_eqb (num_of_bool x) n
+  | JNum n, JBool y => num_eqb n (num_of_bool y)
+  | JNum x, JNum y => num_eqb x y
+  | JStr x, JStr y => String.eqb x y
+  | JArr la, JArr lb =>
+      (fix go (la lb : list json) : bool :=
+         match la, lb with
+         | [], [] => true
+         | x :: ra, y :: rb => py_eqb x y && go ra rb
+         | _, _ => false
+         end) la lb
+  | JObj la, JObj lb =>
+      Nat.eqb (List.length la) (List.length lb) &&
+      (fix go (la : list (string * json)) : bool :=
+         match la with
+         | [] => true
+         | (k, x) :: ra =>
+             match assoc k lb with
+             | Some y => py_eqb x y && go ra
+             | None => false
+             end
+         end) la
+  | _, _ => false
+  end.
